@@ -19,7 +19,8 @@ RULE = ("lev: autocorrelation lags synthesised from chosen rational reflection v
         "every depth), non-monic numerators, constant denominators d != 1, feedback / shifted / empty denominators, "
         "exhaustive grid of numerators of length <= 3. stab: denominators multiplied out from chosen real roots and "
         "conjugate pairs (rational parts; radius <, =, > 1; root 0) times a gain from {1,-1,2,-1/3,5/7}; every multiset "
-        "of <= 2 chosen roots exhaustively, random multisets up to degree 8. Non-trivial = degree >= 2. coef: every "
+        "of <= 2 chosen roots exhaustively, every chosen root with multiplicity 2..4 (on-circle roots included), random "
+        "multisets up to degree 6 (quick) / 10 (thorough). Non-trivial = degree >= 2. coef: every "
         "denominator [a0,a1,a2] on a rational grid (decided by the Jury conditions) and random coefficient lists.")
 EXHAUSTIVE = {"quick": False, "thorough": False}
 trusted_base = ["coefficients are exact rationals (ExactQ); the float 0.0 that Poly returns for an absent coefficient is "
@@ -311,8 +312,34 @@ def gen_stab(tier, rng):
     for b in ALL_ROOTS[i:]:
       for g in (GAINS if tier == "thorough" else [GAINS[(i + len(b)) % 5], GAINS[(i + 2) % 5]]):
         yield case([a, b], g, ["exh", "n=2", cls([a, b])])
+  # repeated roots: every chosen root with multiplicity 2 and 3 (4 in the thorough tier), alone and next to a
+  # stable factor; roots ON the unit circle with multiplicity are the critical cases
+  for i, rt in enumerate(ALL_ROOTS):
+    for mult in ((2, 3) if tier == "quick" else (2, 3, 4)):
+      if (1 if rt[1] == 0 else 2) * mult > 10:
+        continue
+      g = GAINS[(i + mult) % 5]
+      yield case([rt] * mult, g, ["mult", "mult=%d" % mult, cls([rt])])
+      other = ROOTS_IN[(i + mult) % len(ROOTS_IN)]
+      yield case([rt] * mult + [other], GAINS[(i + 1) % 5], ["mult", "mult=%d" % mult, cls([rt, other])])
+      yield case([other] + [rt] * mult, GAINS[(i + 2) % 5], ["mult", "mult=%d" % mult, cls([rt, other])])
+  for _ in range(60 if tier == "quick" else 800):
+    # a random root of random multiplicity among random inside roots
+    pool = rng.choice([ROOTS_IN, ROOTS_ON, ROOTS_ON, ROOTS_OUT])
+    rt = rng.choice(pool)
+    d = 1 if rt[1] == 0 else 2
+    mult = rng.randrange(2, 5)
+    while d * mult > (6 if tier == "quick" else 10):
+      mult -= 1
+    roots = [rt] * mult
+    for _k in range(rng.randrange(0, 3)):
+      o = rng.choice(ROOTS_IN)
+      if sum(1 if r[1] == 0 else 2 for r in roots) + (1 if o[1] == 0 else 2) <= (6 if tier == "quick" else 10):
+        roots.append(o)
+    rng.shuffle(roots)
+    yield case(roots, rng.choice(GAINS), ["mult-random", "mult=%d" % mult, cls(roots)])
   n = 250 if tier == "quick" else 4000
-  maxdeg = 6 if tier == "quick" else 8
+  maxdeg = 6 if tier == "quick" else 10
   for _ in range(n):
     kind = rng.random()
     roots, deg = [], 0
